@@ -390,7 +390,7 @@ def run(ctx):
             c2["fault"] = None if opt else ("missing-payload", docs[i][0], "")
             extra.append(c2)
         if i in docs and c["fault"] is None and rng.below(6) == 0:
-            c3 = dict(c); c3["headers"] = list(c["headers"]) + [("content-length", str(len(c["body"]) + rng.choice([1, -1, 100])))]
+            c3 = dict(c); c3["headers"] = list(c["headers"]) + [("content-length", str(rng.choice([len(c["body"]) + 1, len(c["body"]) - 1, len(c["body"]) + 100, 0])))]
             c3["fault"] = ("content-length-mismatch", docs[i][0], ""); c3["stream"] = True
             extra.append(c3)
     built += extra
